@@ -32,6 +32,7 @@ PROP_MODULES = {
     "C20": ["c20"],
     "C14": ["c14"],
     "C17": ["c17"],
+    "C13": ["c13", "c11"],
 }
 
 
